@@ -198,15 +198,33 @@ def _ret_const(repo, cls, name):
                                 okv, val = const_value(v)
                                 if okv:
                                     env.setdefault("self." + t.id, val)
+                                    env.setdefault(c.name + "." + t.id, val)
                     else:
                         for t in st.targets:
                             if isinstance(t, ast.Name):
                                 okv, val = const_value(st.value)
                                 if okv:
                                     env.setdefault("self." + t.id, val)
+                                    env.setdefault(c.name + "." + t.id, val)
     if is_self_attr(e) and ("self." + e.attr) in env:
         return True, env["self." + e.attr]
+    if isinstance(e, ast.Attribute) and norm(e) in env:
+        return True, env[norm(e)]
     return const_value(e)
+
+
+def _class_str_constants(repo, cls):
+    """{'self.X': 'v', 'Cls.X': 'v'} for the string constants assigned at class level along the hierarchy"""
+    env = {}
+    for c in repo.mro(cls):
+        if isinstance(c, ClassInfo):
+            for st in c.node.body:
+                if isinstance(st, ast.Assign) and isinstance(st.value, ast.Constant) and isinstance(st.value.value, str):
+                    for t in st.targets:
+                        if isinstance(t, ast.Name):
+                            env.setdefault("self." + t.id, st.value.value)
+                            env.setdefault(c.name + "." + t.id, st.value.value)
+    return env
 
 
 def _does_arith(func):
@@ -313,13 +331,15 @@ def rule_s3(repo, col, classes):
     return n
 
 
-def _string_literals_tested(func):
+def _string_literals_tested(func, consts=None):
     out = []
     for n in walk_no_nested(func.node):
         if isinstance(n, ast.Compare) and all(isinstance(op, (ast.Eq, ast.NotEq)) for op in n.ops):
             for o in [n.left] + list(n.comparators):
                 if isinstance(o, ast.Constant) and isinstance(o.value, str):
                     out.append((n, o.value))
+                elif consts and isinstance(o, ast.Attribute) and norm(o) in consts:
+                    out.append((n, consts[norm(o)]))
     return out
 
 
@@ -330,12 +350,13 @@ def rule_s4(repo, col):
     if not (ok1 and ok0 and isinstance(one, str) and isinstance(zero, str)):
         raise AnalysisError("SemiringSymbolic.one/zero: expected string literals")
     allowed = {one, zero}
+    consts = _class_str_constants(repo, S)
     n = 0
     for name in ("plus", "times", "negate", "normalize", "is_one", "is_zero"):
         f = S.methods.get(name)
         if f is None:
             continue
-        for cmpnode, lit in _string_literals_tested(f):
+        for cmpnode, lit in _string_literals_tested(f, consts):
             n += 1
             col.decide(
                 "S4",
@@ -348,15 +369,17 @@ def rule_s4(repo, col):
             )
         # returned bare constants must also be one/zero
         for r in returns(f.node):
-            if isinstance(r.value, ast.Constant) and isinstance(r.value.value, str):
+            rv = r.value.value if isinstance(r.value, ast.Constant) and isinstance(r.value.value, str) else (
+                consts.get(norm(r.value)) if isinstance(r.value, ast.Attribute) else None)
+            if rv is not None:
                 n += 1
-                col.decide("S4", S.module, r, r.value.value in allowed,
+                col.decide("S4", S.module, r, rv in allowed,
                            "returned literal is one()/zero()",
-                           "SemiringSymbolic.%s returns the literal %r, which is neither one()=%r nor zero()=%r" % (name, r.value.value, one, zero))
+                           "SemiringSymbolic.%s returns the literal %r, which is neither one()=%r nor zero()=%r" % (name, rv, one, zero))
     # pairing: plus eliminates zero, times absorbs zero / eliminates one, negate swaps, normalize tests one
     def tested(name):
         f = S.methods.get(name)
-        return set(l for _, l in _string_literals_tested(f)) if f else set()
+        return set(l for _, l in _string_literals_tested(f, consts)) if f else set()
 
     exp = {"plus": {zero}, "times": {zero, one}, "negate": {zero, one}, "normalize": {one}}
     for name, want in exp.items():
@@ -602,6 +625,8 @@ def rule_s6(repo, col):
         for r in returns(f.node):
             if r.value is None or (isinstance(r.value, ast.Constant)):
                 continue
+            if isinstance(r.value, ast.Attribute) and norm(r.value) in _class_str_constants(repo, S):
+                continue  # a named class constant: the same as the literal it names (S4 checks which)
             fp = _format_parts(r.value, params)
             if fp is None:
                 raise AnalysisError("SemiringSymbolic.%s: return shape not understood: %s" % (name, norm(r)))
@@ -660,12 +685,19 @@ def rule_s7(repo, col):
     S = repo.cls("problog.evaluator", "SemiringSymbolic")
     m = S.module
     ident = {}
+    consts = _class_str_constants(repo, S)
+
+    def canon(txt):
+        """named class constants read as the literals they name"""
+        for k_ in sorted(consts, key=len, reverse=True):
+            txt = txt.replace(k_, repr(consts[k_]))
+        return txt
+
     for nm in ("zero", "one"):
-        f = S.methods.get(nm)
-        rets = [r.value for r in returns(f.node)] if f is not None else []
-        if len(rets) != 1 or not isinstance(rets[0], ast.Constant):
+        okc, val = _ret_const(repo, S, nm)
+        if not okc or not isinstance(val, str):
             raise AnalysisError("SemiringSymbolic.%s: constant not found" % nm)
-        ident[nm] = repr(rets[0].value)
+        ident[nm] = repr(val)
     n = 0
     for name, idn, ann in (("plus", ident["zero"], None), ("times", ident["one"], ident["zero"])):
         f = S.methods.get(name)
@@ -673,7 +705,8 @@ def rule_s7(repo, col):
         for p_ in _dt.extract(f.node, opaque_loops=True):
             if p_.end != "return" or p_.value is None:
                 continue
-            cd = dict((s_, t_) for s_, t_, _ in p_.conds)
+            cd = dict((canon(s_), t_) for s_, t_, _ in p_.conds)
+            p_.value = canon(p_.value)
             for x, other in ((a, b), (b, a)):
                 if p_.value == x:
                     n += 1
